@@ -66,6 +66,9 @@ func (m *machine) global(g *ssa.Global) *value {
 	p := new(value)
 	*p = zero(g.Type().(*types.Pointer).Elem())
 	m.globals[g] = p
+	if m.preexist != nil {
+		m.markCell(p) // a package-level variable materialised lazily is still pre-existing memory
+	}
 	return p
 }
 
